@@ -94,9 +94,14 @@ def prove(prop, tier, R, only_keys=None):
     for name, lm in R.LEMMAS.items():
         if prop in lm.props:
             obligations += verify_lemma(name)
+    effects = []
+    if prop in ("C10", "C18"):
+        from pyvc.effects import effect_obligations
+        effects = [o for o in effect_obligations() if prop == "C10" or ".graph_generate." in o.name or ".stochastic_atom_graph." in o.name]
     timeout = 10 if tier == "quick" else 60
     t0 = time.time()
     solve_all(obligations, timeout=timeout)
+    obligations += effects          # decided on the syntax tree (back end "syntactic")
     return funcs, obligations, undecided, time.time() - t0, src
 
 
